@@ -36,7 +36,7 @@ def seeded_table():
         caught = 'not evaluated'
         obl = ''
         if r:
-            caught = '**yes**' if r.get('caught') else 'no'
+            caught = ('**yes**' + (' (thorough tier)' if r.get('caught_by_tier') == 'thorough' else '')) if r.get('caught') else 'no'
             ob = []
             for p, v in r.get('runs', {}).items():
                 for l in v.get('failed_obligations', [])[:3]:
